@@ -74,7 +74,8 @@ def run(ctx):
                         break
                 if f0 is True:
                     quiet = not (tr.of("SEND") or tr.of("STEP") or tr.of("RELALL") or tr.of("SETTIMER") or tr.of("SETFLAG"))
-                    ck.ob("C12-R4", fn, "tablet-mode:keyboard-event-dropped-silently", quiet and s.dst == "NEXT_KB",
+                    # (where the loop goes next -- another read, the next device -- is the drain rule of C10)
+                    ck.ob("C12-R4", fn, "tablet-mode:keyboard-event-dropped-silently", quiet and s.dst != "RETURN",
                           detail=None if (quiet and s.dst == "NEXT_KB") else "dst %s quiet %s" % (s.dst, quiet))
         # timer tick in tablet mode: no chord, timer cleared (shared with C11-R2)
         if s.src == "POLL":
@@ -98,7 +99,7 @@ def run(ctx):
         v, Rt = LoopModel.result_variant(s, "next_tablet")
         if v != "One":
             continue
-        arm = s.guard_val(lambda a: a == T("variantof", T("field", T("variant", T("okval", Rt), "One"), "0")))
+        arm = s.guard_val(lambda a: a == T("variantof", T("field", T("variant", LoopModel.ok_base(s, Rt), "One"), "0")))
         if arm not in ("On", "Off"):
             ck.ob("C12-R2", fn, "arm-recognised", False, detail="tablet event variant %s" % (arm,))
             continue
